@@ -116,6 +116,27 @@ def _lib_comps(comps):
     return [Component.from_bytes(v, t) for t, v in comps]
 
 
+def _recase(uri, mode):
+    """The same URI with its percent escapes spelled in lower case (mode 0) or with one lower- and one upper-case digit"""
+    out = []
+    i = 0
+    while i < len(uri):
+        if uri[i] == '%' and i + 2 < len(uri) + 0 and i + 3 <= len(uri):
+            a, b = uri[i + 1], uri[i + 2]
+            if mode == 0:
+                a, b = a.lower(), b.lower()
+            elif mode == 1:
+                a, b = a.lower(), b.upper()
+            else:
+                a, b = a.upper(), b.lower()
+            out.append('%' + a + b)
+            i += 3
+        else:
+            out.append(uri[i])
+            i += 1
+    return ''.join(out)
+
+
 def _check_single(r, comps, rep):
     enc = [T.enc_tlv(t, v) for t, v in comps]
     wire_ref = T.enc_tlv(7, b''.join(enc))
@@ -135,6 +156,15 @@ def _check_single(r, comps, rep):
     back = Name.from_bytes(wire_ref)
     if [bytes(c) for c in back] != enc:
         r.bad('C09/from_bytes', f'{[bytes(c).hex() for c in back]} != {[e.hex() for e in enc]}')
+    # the same into a caller's buffer at an offset
+    k = rep % 4
+    buf = bytearray(b'\xaa' * (k + len(wire_ref) + 2))
+    try:
+        Name.encode(enc, buf, k)
+        if bytes(buf) != b'\xaa' * k + wire_ref + b'\xaa\xaa':
+            r.bad('C09/encode-into-buffer', f'offset {k}: {bytes(buf).hex()[:80]} expected {wire_ref.hex()[:80]} inside 0xaa margins')
+    except Exception as e:
+        r.bad(f'C09/encode-into-buffer/raised/{type(e).__name__}', repr(e)[:200])
     if Name.encoded_length(enc) != len(wire_ref):
         r.bad('C09/encoded_length', f'{Name.encoded_length(enc)} != {len(wire_ref)}')
     # canonical URI
@@ -174,7 +204,10 @@ def _check_single(r, comps, rep):
         'generator': lambda: (e for e in enc),
         'uri-canonical': lambda: cu_ref,
         'uri-no-leading-slash': lambda: cu_ref[1:] if comps and not cu_ref[1:].startswith('/') and not cu_ref.endswith('/') else cu_ref,
+        'uri-lower-case-escapes': lambda: _recase(cu_ref, 0),
+        'uri-mixed-case-escapes': lambda: _recase(cu_ref, 1 + rep % 2),
         'list-str': lambda: [ref_comp_canonical(t, v) for t, v in comps],
+        'list-str-mixed-case-escapes': lambda: [_recase(ref_comp_canonical(t, v), 1 + rep % 2) for t, v in comps],
         'list-mixed': lambda: [ref_comp_canonical(t, v) if (i + rep) % 2 else enc[i] for i, (t, v) in enumerate(comps)],
         'wire-bytes': lambda: wire_ref,
         'wire-bytearray': lambda: bytearray(wire_ref),
